@@ -1,4 +1,5 @@
 //! Explorers for the data / packaging properties C13 C14 C18 (and generators for C07 C08 C09).
+mod c07;
 mod c13;
 mod c14;
 mod c18;
@@ -8,6 +9,8 @@ use vh::report::Args;
 fn main() {
     let args = Args::parse();
     match args.sub.as_str() {
+        "c07gen" => c07::generate(&args),
+        "c07-execd" => c07::execd_helper(&args),
         "c13" => c13::run(&args),
         "c14" => c14::run(&args),
         "c18" => c18::run(&args),
